@@ -354,6 +354,9 @@ def known_match(case, klass, detail, known):
             return kf["id"]
         if pred == "redirect-to-stdout" and any(("> stdout" in x or ">stdout" in x or ">> stdout" in x) for x in case.get("args", [])):
             return kf["id"]
+        if pred == "env-tz-assigned-in-chain" and sum(1 for x in case.get("args", []) if x == "then") >= 1 and any("ENV[\"TZ\"] =" in x for x in case.get("args", [])) \
+                and any(f in a for f in ("sec2localtime", "sec2localdate", "localtime2sec", "strftime_local", "strptime_local", "localtime2gmt", "gmt2localtime")):
+            return kf["id"]
         if pred == "json-pass-comments" and "--pass-comments" in a and any(f in case.get("args", []) for f in (
                 "--ijson", "--json", "--ijsonl", "--jsonl", "--j2c", "--j2t", "--j2d", "--j2n", "--j2x", "--j2p", "--j2m", "--j2l", "--l2c", "--l2j", "--l2d", "--l2p", "-i")):
             return kf["id"]
